@@ -316,6 +316,26 @@ impl Exec {
         (idx, h)
     }
 
+    /// coroutine actor pinned to one worker (`Builder::id`)
+    pub fn spawn_pinned<F>(&mut self, name: &str, worker: usize, f: F) -> usize
+    where
+        F: FnOnce(&Actor) + Send + 'static,
+    {
+        let (a, g) = self.new_actor(name, true);
+        let idx = a.id as usize;
+        let h = unsafe {
+            may::coroutine::Builder::new()
+                .id(worker)
+                .spawn(move || {
+                    let _g = g;
+                    f(&a);
+                })
+                .unwrap()
+        };
+        self.co_handles.push(h);
+        idx
+    }
+
     pub fn names(&self) -> Vec<String> {
         self.actors.iter().map(|a| a.name.clone()).collect()
     }
